@@ -221,7 +221,7 @@ fn encode_message_payload(subscription: &Arc<Subscription>, message: &Arc<TopicM
             data: encoded_data,
             message_id: message.id.to_string(),
             message_id_dupe: message.id.to_string(),
-            attributes: HashMap::default(),
+            attributes: message.attributes.clone().unwrap_or_default(),
             publish_time: "2000-01-01T12:00:00Z".to_string(),
             publish_time_dupe: "2000-01-01T12:00:00Z".to_string(),
         },
